@@ -80,6 +80,22 @@ static inline bool spec_head_has_payload(uint8_t b0) {
   return (major == 2 || major == 3) && SPEC_AI(b0) != 31;
 }
 
+/* ---- encoding side (RFC 8949 section 3): the head for (major, argument) ---- */
+
+/* argument bytes of the shortest ("preferred") head for value v: 0 (immediate), 1, 2, 4 or 8 */
+static inline unsigned spec_shortest_argbytes(uint64_t v) {
+  return v <= 23 ? 0u : v <= 0xffu ? 1u : v <= 0xffffu ? 2u : v <= 0xffffffffu ? 4u : 8u;
+}
+
+/* k-th byte (k = 0 is the initial byte) of the head with the given major type, number of argument
+ * bytes (0 = immediate, requires v <= 23) and argument v, big-endian */
+static inline uint8_t spec_head_byte(unsigned major, unsigned argbytes, uint64_t v, unsigned k) {
+  if (k == 0)
+    return (uint8_t)((major << 5) |
+                     (argbytes == 0 ? (unsigned)v : argbytes == 1 ? 24u : argbytes == 2 ? 25u : argbytes == 4 ? 26u : 27u));
+  return (uint8_t)(v >> (8u * (argbytes - k)));
+}
+
 /* IEEE 754 binary16 -> binary32 bit pattern, by integer manipulation only (RFC 8949 Appendix D semantics).
  * NaNs map to some NaN (callers compare NaN-ness, not payload). */
 static inline uint32_t spec_half_to_float_bits(uint16_t h) {
